@@ -513,16 +513,7 @@ theorem C28_fact_shipperUpload :
 /-- a world with a three-segment block is well formed -/
 def exWorld : Nat → Block := fun _ => ⟨[("chunks/000001", 12), ("chunks/000002", 7), ("chunks/000003", 30)], 40⟩
 
-example : WF exWorld := by
-  intro n
-  refine ⟨?_, ?_⟩
-  · intro f a c h1 h2
-    simp [exWorld, Block.files, indexName] at h1 h2
-    rcases h1 with ⟨rfl, rfl⟩ | ⟨rfl, rfl⟩ | ⟨rfl, rfl⟩ | ⟨rfl, rfl⟩ <;>
-      rcases h2 with ⟨h, rfl⟩ | ⟨h, rfl⟩ | ⟨h, rfl⟩ | ⟨h, rfl⟩ <;> first | rfl | (revert h; decide)
-  · intro f sz h
-    simp [exWorld, Block.files, indexName] at h
-    rcases h with ⟨rfl, _⟩ | ⟨rfl, _⟩ | ⟨rfl, _⟩ | ⟨rfl, _⟩ <;> decide
+example : WF exWorld := fun _ => wfBlock_of_nodup (exWorld 0) (by decide) (by decide)
 
 -- an upload cut after 4 of 5 mutating calls is invisible; the restart makes it visible and complete
 example : (get (exec (some 4) (uploadScript codeUploadOrder 0 (exWorld 0)) []).bkt (0, metaName)) = none := by decide
